@@ -69,5 +69,10 @@ P5 == {PCase("P5", <<F("a", Decl5, 0, 1), F("b", Decl5, 0, 1), F("c", V1, 0, 1),
          va \in {Ver1V, Ver2V, Base5V}, vb \in {Ver1V, Ver2V}}
       \cup {PCase("P5", <<F("xs", Arr(Decl5), 0, 1), F("c", V1, 0, 1), F("d", V2, 0, 1)>>, <<SeqV(m), Nil, Nil>>, <<Prim("Integer")>>, <<Leaf("5")>>, TRUE) :
                m \in {<<Ver1V, Ver2V, Ver1V>>, <<Ver2V, Base5V, Ver1V>>}}
-PolyCases == P1 \cup P2 \cup P3 \cup P4 \cup P5
+\* P6: SOAP headers: a subclass instance where the header is declared as its base, in the request and in the response - the
+\* header element keeps the DECLARED name (that is how the receiver finds it) and carries the type marker
+P6 == {[PCase("P6", <<F("a", Prim("Integer"), 0, 1)>>, <<Leaf("5")>>, <<Prim("Integer")>>, <<Leaf("5")>>, TRUE)
+          EXCEPT !.inh = <<DeclBase(ns)>>, !.inhvals = <<iv>>, !.outh = <<DeclBase(ns)>>, !.outhvals = <<ov>>] :
+             ns \in {"tns", "urn:other"}, iv \in {Nil} \cup ValuesOf("Base"), ov \in {Nil} \cup ValuesOf("Base")}
+PolyCases == P1 \cup P2 \cup P3 \cup P4 \cup P5 \cup P6
 =============================================================================
